@@ -13,6 +13,8 @@ import (
 	"path/filepath"
 	"time"
 
+	"github.com/prometheus/common/promslog"
+
 	"github.com/prometheus/prometheus/model/exemplar"
 	"github.com/prometheus/prometheus/model/labels"
 	"github.com/prometheus/prometheus/storage"
@@ -207,7 +209,7 @@ func (f *c40WAL) GC(w *c40World) {
 		panic(fmt.Sprintf("c40: segments %d..%d %v", first, last, err))
 	}
 	drop := f.m5ref
-	if _, err := wlog.Checkpoint(nil, f.wl, first, last-1, func(id chunks.HeadSeriesRef) bool { return id != drop }, 0, false); err != nil {
+	if _, err := wlog.Checkpoint(promslog.NewNopLogger(), f.wl, first, last-1, func(id chunks.HeadSeriesRef) bool { return id != drop }, 0, false); err != nil {
 		panic(fmt.Sprintf("c40: checkpoint: %v", err))
 	}
 	if err := f.wl.Truncate(last); err != nil {
